@@ -45,7 +45,7 @@ class Plan:
 
     def model_applies(self, model_recs):
         """False when the model declares the case outside its fragment (status 5)."""
-        return not any(r[:2] in ([70, 5], [82, 5]) for r in model_recs)
+        return not any(r[:2] in ([70, 5], [82, 5]) or r[:1] == [97] for r in model_recs)
 
     def input_in_fragment(self, ints):
         return True
